@@ -26,7 +26,7 @@ def emit_sig(sig):
     return coq_list(["(%s, %s)" % (coq_str(n), coq_str(d or "")) for n, d in sig])
 
 
-def emit_members(tab, eq_excluded=None, supersig=None):
+def emit_members(tab, eq_excluded=None, supersig=None, switch=None):
     """-> (text, errors)"""
     errors = []
     names = [c["name"] for c in tab["classes"]]
@@ -71,11 +71,19 @@ def emit_members(tab, eq_excluded=None, supersig=None):
     out.append("Definition add_signature : list (string * string) := %s." % emit_sig(sigs.get("add", [])))
     out.append("Definition factory_signature : list (string * string) := %s." % emit_sig(sigs.get("component_factory", [])))
     out.append("Definition class_level_attrs : list string := %s." % coq_list([coq_str(x) for x in (supersig or {}).get("class_attrs", [])]))
+    # shape of the global switch: build_time_validation.py and the helpers of neuroml/__init__.py (translators/tr_switch.py)
+    sw = switch or {}
+    strs = lambda l: coq_list([coq_str(x) for x in l])  # noqa
+    out.append("Definition switch_module : list string := %s." % strs(sw.get("module", [])))
+    out.append("Definition switch_helpers : list (string * list string) := %s." % coq_list(
+        ["(%s, %s)" % (coq_str(n), strs(b_)) for n, b_ in sw.get("helpers", [])]))
+    out.append("Definition switch_binding : list string := %s." % strs(sw.get("binding", [])))
+    out.append("Definition switch_uses : list string := %s." % strs(sw.get("uses", [])))
     return "\n".join(out) + "\n", errors
 
 
-def gen_members(ck, tab, eq_excluded=None, supersig=None):
-    text, errors = emit_members(tab, eq_excluded, supersig)
+def gen_members(ck, tab, eq_excluded=None, supersig=None, switch=None):
+    text, errors = emit_members(tab, eq_excluded, supersig, switch)
     ck.oblige("translate:supergen", not errors, "; ".join(errors[:20]), kind="translate")
     g = ck.gen_v("Gen_Members.v", text)
     ok, out = ck.coqc(g, timeout=600)
